@@ -5,7 +5,7 @@
    The operation is a script of outcomes, one per attempt.  PERMANENT_S3_ERROR_CODES and the handler
    defaults come from Gen/GenS3.v; retry_with_backoff / is_permanent_s3_error / with_s3_retry are pinned
    by golden AST digests in translator/gen_s3.py.  Definitions only. *)
-From Coq Require Import List Bool Arith QArith.
+From Coq Require Import List Bool Arith QArith String.
 Require Import DS.Model.Str DS.Gen.GenS3.
 Import ListNotations.
 
@@ -67,6 +67,13 @@ Definition classify {V} (x : V + exn) : outcome V exn :=
     | OtherExn | BaseExn => NonRetryable e
     end
   end.
+
+(* S3 answers that no retry can change, stated INDEPENDENTLY of the library's table: the request is not authorised,
+   the credentials are wrong, the bucket does not exist (AWS S3 error-code reference) *)
+Definition definitive_codes : list str :=
+  [lit "AccessDenied"; lit "InvalidAccessKeyId"; lit "SignatureDoesNotMatch"; lit "NoSuchBucket"; lit "AllAccessDisabled";
+   lit "403"; lit "401"].
+Definition definitive (e : exn) : bool := match e with ClientError c => member c definitive_codes | _ => false end.
 
 (* with_s3_retry(op) where attempt i of op behaves as script[i] *)
 Definition with_s3_retry {V} (script : list (V + exn)) : rres V exn * nat :=
